@@ -454,6 +454,14 @@ def run_domain(prop, tier, seed, dom, exe, n, known, shrink_ok, base_answers):
                     expected[l] = list(enumerate(b.split(" ; ")))
             examine(res, prop, dom, exe, stream, "wrapper-diff", lines, answers, diff_oracle_factory(expected), known, shrink_ok=False)
     if prop == "C05":
+        # widenings whose operands are joins of disjoint boxes (one / several disjuncts on either side)
+        dl = X.dis_widen(seed + 48, 120 if tier == "quick" else 3000)
+        if dom.get("asc_widen"):
+            dl = [X.ascending_widen(l) for l in dl]
+        da = run_cases(exe, name, dl, os.path.join(outd, stream + "-diswiden.cases"))
+        examine(res, prop, dom, exe, stream, "diswiden", dl, da, orc, known, shrink_ok)
+        st["diswiden_cases"] = len(dl)
+    if prop == "C05":
         # interval-shaped chains of the modelled domain, with its bound
         ch = domcommon.widen_chains(seed + 5, max(10, n // 3))
         # relational chains, long enough to exceed the bound if the widening does not stabilise
